@@ -40,6 +40,7 @@ programs are never reported by themselves, only differing results are.
 """
 from __future__ import annotations
 
+import os
 from typing import Any, Dict, List, Tuple
 
 from mc import boot  # noqa: F401
@@ -89,6 +90,9 @@ REQUIRED = ["n_jit", "n_vmap", "n_vmap1", "n_vmap2", "n_vmap7", "n_scan", "n_sca
 def configurations(tier: str) -> List[Dict[str, str]]:
     assert sorted(PLAN) == catalog.FAMILIES
     fams = ORDER + [f for f in sorted(PLAN) if f not in ORDER]
+    only = os.environ.get("VERIF_C02_FAMILIES")  # development aid (mutation demos): restrict to some families
+    if only:
+        fams = [f for f in fams if f in only.split(",")]
     out = []
     for pos in ((1, 0) if tier == "thorough" else (0,)):  # thorough: the default-size ones first (longer)
         for fam in fams:
